@@ -1804,7 +1804,10 @@ class Emitter:
         key = "::".join(f.segs[-2:]) if len(f.segs) >= 2 else name
         if len(f.segs) >= 2 and f.segs[-2] == "Self" and self.self_struct:
             key = self.self_struct + "::" + name
-        shape = self.fn_shapes.get(key) or self.fn_shapes.get(name)
+        # a path into the standard library (`std::io::stdout()`) never names a function of the translated source, even
+        # when one of them has the same last segment (anstream's own `stdout()`): only the vocabulary may answer for it
+        std_path = len(f.segs) >= 2 and f.segs[0] in ("std", "core", "alloc")
+        shape = self.fn_shapes.get(key) or (None if std_path else self.fn_shapes.get(name))
         if shape is None:
             ext = self.v.get("fns", {}).get(key) or self.v.get("fns", {}).get(name)
             if ext is None:
@@ -2489,6 +2492,8 @@ class Emitter:
     def local_callee(self, segs):
         """(fn, impl type name | None) for a call path naming a function of the parsed source, else None"""
         name = segs[-1]
+        if len(segs) >= 2 and segs[0] in ("std", "core", "alloc"):
+            return None       # a standard-library path is never a function of the parsed source
         quals = [s for s in segs[:-1] if s not in ("crate", "self", "super")]
         if not quals:
             fn = self.local_free_fn(name)
